@@ -181,17 +181,17 @@ Qed.
 (* ---- the commit ---- *)
 Lemma clear_after_commit_fields : forall n sx i,
   writeable (clear_after_commit sx n i) = writeable sx /\ lockpg (clear_after_commit sx n i) = lockpg sx /\
-  wal_chk (clear_after_commit sx n i) = wal_chk sx.
+  wal_chk (clear_after_commit sx n i) = wal_chk sx /\ wal_file (clear_after_commit sx n i) = wal_file sx.
 Proof.
   induction n as [|n IH]; intros sx i; cbn [clear_after_commit]; [auto|].
   destruct (i <? lenN (chk_pages sx)); [|auto].
-  destruct (IH (if i + 1 =? lockpg sx then sx else set_page_chk sx (i + 1) 0) (i + 1)) as [A [B C]]. rewrite A, B, C.
+  destruct (IH (if i + 1 =? lockpg sx then sx else set_page_chk sx (i + 1) 0) (i + 1)) as [A [B [C D]]]. rewrite A, B, C, D.
   destruct (i + 1 =? lockpg sx); auto.
 Qed.
 
 Lemma commit_journal_fields s c s' : op_commit_journal s c = (Done, s') ->
   writeable s' = true /\ lockpg s' = lockpg s /\
-  (wal_mode s' = true -> exists q, file_pg s 1 = Some q /\ pg_wal q = true) /\ wal_chk s' = [].
+  (wal_mode s' = true -> exists q, file_pg s 1 = Some q /\ pg_wal q = true) /\ wal_chk s' = [] /\ wal_file s' = wal_file s.
 Proof.
   intros H. unfold op_commit_journal in H. destruct (writeable s) eqn:Ew; cbn [negb] in H; [|discriminate].
   set (s0 := with_wal s [] (wal_latest s) (wal_file s)) in *.
@@ -199,14 +199,14 @@ Proof.
   pose proof (journal_pages_samenc c _ _ _ _ Ej) as HSj.
   destruct (journal_pages_spec c _ s0 _ _ Ej) as [_ A2].
   set (s1 := clear_after_commit sj (length (chk_pages sj)) c) in *.
-  destruct (clear_after_commit_fields (length (chk_pages sj)) sj c) as [F1 [F2 F3]]. fold s1 in F1, F2, F3.
+  destruct (clear_after_commit_fields (length (chk_pages sj)) sj c) as [F1 [F2 [F3 F4]]]. fold s1 in F1, F2, F3, F4.
   pose proof (checksum_same s1 c []) as HS.
   destruct (checksum s1 c []) as [[post|] s2]; [|discriminate]. cbn [snd] in HS.
   inversion H; subst s'. clear H.
-  destruct HS as [W2 [L2 [_ [_ [_ [_ [K2 _]]]]]]]. destruct HSj as [Wj [Lj [_ [_ [_ [Kj _]]]]]].
-  cbn [writeable lockpg wal_mode wal_chk with_dirty with_pos].
+  destruct HS as [W2 [L2 [_ [_ [_ [_ [K2 [_ [X2 _]]]]]]]]]. destruct HSj as [Wj [Lj [_ [_ [_ [Kj [_ [Xj _]]]]]]]].
+  cbn [writeable lockpg wal_mode wal_chk wal_file with_dirty with_pos].
   split; [rewrite W2, F1, Wj; exact Ew|]. split; [rewrite L2, F2, Lj; reflexivity|].
-  split; [|rewrite K2, F3, Kj; reflexivity].
+  split; [|split; [rewrite K2, F3, Kj; reflexivity|rewrite X2, F4, Xj; reflexivity]].
   destruct (alookup 1 pages) as [q|] eqn:Ea; [|discriminate].
   intros Hw. exists q. split; [|exact Hw]. apply (A2 1 q). apply alookup_in. exact Ea.
 Qed.
@@ -471,7 +471,7 @@ Proof.
   - unfold op_invalidate_journal in H. inversion H; subst s'. cbn [wal_mode with_dirty] in Hm.
     rewrite (m_mode false s s2 M2) in Hm. discriminate.
   - destruct (mid_commit false s s2 c s' M2 H) as [HB [Et [Ep _]]].
-    destruct (commit_journal_fields s2 c s' H) as [_ [F [_ K]]].
+    destruct (commit_journal_fields s2 c s' H) as [_ [F [_ [K _]]]].
     split; [exact HB|]. split; [exact K|]. split; [exact Et|]. split; [exact Ep|]. rewrite F. apply (m_lock false s s2 M2).
 Qed.
 
